@@ -215,6 +215,11 @@ func checkAssertions(w *World, r *Report, reach map[*ssa.Function]bool) {
 				r.ok("R05.4", ssaName(fn), construct, pos, "the interface value is built from this very type on every path", true)
 				return
 			}
+			// (5) an element of a slice for which an all-elements predicate of this type succeeded
+			if elementUnderAllPredicate(fn, ta) {
+				r.ok("R05.4", ssaName(fn), construct, pos, "element of a slice that passed a predicate returning true only if every element has this type", true)
+				return
+			}
 			key := ssaName(fn) + " | " + tname
 			if why, ok := assertExceptions[key]; ok {
 				r.except("R05.4", ssaName(fn), construct, pos, why)
@@ -224,6 +229,149 @@ func checkAssertions(w *World, r *Report, reach map[*ssa.Function]bool) {
 		})
 	}
 	r.floor("single-result type assertions on parse/render paths", n, 30)
+}
+
+// sliceElemOf: v is an element read from slice value sl (x[i] through IndexAddr+load).
+func sliceElemOf(v ssa.Value) (ssa.Value, bool) {
+	u, ok := v.(*ssa.UnOp)
+	if !ok || u.Op != token.MUL {
+		return nil, false
+	}
+	ia, ok := u.X.(*ssa.IndexAddr)
+	if !ok {
+		return nil, false
+	}
+	return ia.X, true
+}
+
+// allElemsPredicate: g(xs []T) bool returns true only after a loop over xs in which every
+// element passed a comma-ok assertion to the returned type: the assertion's failing edge leads
+// to `return false`, and `return true` lies behind the loop's exit edge only.
+func allElemsPredicate(g *ssa.Function) (types.Type, int, bool) {
+	if g == nil || g.Pkg == nil || g.Pkg.Pkg.Path() != twigPath || len(g.Blocks) == 0 {
+		return nil, 0, false
+	}
+	if g.Signature.Results().Len() != 1 || !types.Identical(g.Signature.Results().At(0).Type().Underlying(), types.Typ[types.Bool]) {
+		return nil, 0, false
+	}
+	var ta *ssa.TypeAssert
+	pidx := -1
+	nTA := 0
+	instrsOf(g, func(in ssa.Instruction) {
+		x, ok := in.(*ssa.TypeAssert)
+		if !ok {
+			return
+		}
+		nTA++
+		if !x.CommaOk {
+			return
+		}
+		sl, ok := sliceElemOf(x.X)
+		if !ok {
+			return
+		}
+		for i, p := range g.Params {
+			if sl == ssa.Value(p) {
+				ta, pidx = x, i
+			}
+		}
+	})
+	if ta == nil || nTA != 1 {
+		return nil, 0, false
+	}
+	// the ok result controls an If whose false edge reaches only `return false`
+	var okIf *ssa.If
+	if ta.Referrers() != nil {
+		for _, ref := range *ta.Referrers() {
+			if ex, isEx := ref.(*ssa.Extract); isEx && ex.Index == 1 && ex.Referrers() != nil {
+				for _, r2 := range *ex.Referrers() {
+					if i, isIf := r2.(*ssa.If); isIf {
+						okIf = i
+					}
+				}
+			}
+		}
+	}
+	if okIf == nil {
+		return nil, 0, false
+	}
+	failBlk := okIf.Block().Succs[1]
+	okRet := false
+	if len(failBlk.Instrs) > 0 {
+		if ret, isRet := failBlk.Instrs[len(failBlk.Instrs)-1].(*ssa.Return); isRet && len(ret.Results) == 1 && isConstBool(ret.Results[0], false) {
+			okRet = true
+		}
+	}
+	if !okRet {
+		return nil, 0, false
+	}
+	// every other return: false, or true in a block that the assertion's block cannot reach
+	// without passing the loop header's exit edge — approximated by: not dominated by the
+	// assertion's block (the loop body), and the function has no other way round the loop
+	good := true
+	instrsOf(g, func(in ssa.Instruction) {
+		ret, isRet := in.(*ssa.Return)
+		if !isRet {
+			return
+		}
+		if len(ret.Results) != 1 {
+			good = false
+			return
+		}
+		if isConstBool(ret.Results[0], false) {
+			return
+		}
+		if !isConstBool(ret.Results[0], true) || ta.Block().Dominates(ret.Block()) {
+			good = false
+			return
+		}
+		// the only way to the return is the exit of the loop that contains the assertion: the
+		// return's block must be a successor of a loop header that dominates the assertion
+		okExit := false
+		for _, p := range ret.Block().Preds {
+			if p.Dominates(ta.Block()) && blockReaches(ta.Block(), p) {
+				okExit = true
+			} else {
+				okExit = false
+				break
+			}
+		}
+		if !okExit {
+			good = false
+		}
+	})
+	if !good {
+		return nil, 0, false
+	}
+	return ta.AssertedType, pidx, true
+}
+
+// elementUnderAllPredicate: ta asserts an element of slice S to T and is dominated by the true
+// edge of P(S) where P is an all-elements predicate for T.
+func elementUnderAllPredicate(fn *ssa.Function, ta *ssa.TypeAssert) bool {
+	sl, ok := sliceElemOf(ta.X)
+	if !ok {
+		return false
+	}
+	fl := &boolFlow{fn: fn, entry: false}
+	fl.edge = func(b *ssa.BasicBlock, i int) bool {
+		return anyEdgeFact(b, i, func(v ssa.Value, trueIdx int) bool {
+			if i != trueIdx {
+				return false
+			}
+			c, ok := v.(*ssa.Call)
+			if !ok {
+				return false
+			}
+			t, pidx, ok := allElemsPredicate(c.Call.StaticCallee())
+			if !ok || pidx >= len(c.Call.Args) || !types.Identical(t, ta.AssertedType) {
+				return false
+			}
+			return sameValue(c.Call.Args[pidx], sl)
+		})
+	}
+	fl.solve()
+	return fl.at(ta)
 }
 
 func dominatedBySameAssert(ta *ssa.TypeAssert) bool {
